@@ -17,7 +17,7 @@ ASSUMPTIONS = [
 ]
 
 
-def _setup(h):
+def _setup(h, real_init=False):
     root, fips = frames.unit_universe("units")
     h.ctx.assume(z3.And(*root.facts()))
     u = root.u
@@ -30,7 +30,14 @@ def _setup(h):
     lam = h.real("lambda_")
     h.requires("tau", 0 < tau, tau < 1)
     add_intercept = h.bool("add_intercept")
-    self = h.obj(CO, lambda_=lam, add_intercept=add_intercept)
+    if real_init:
+        # the object as the client creates it (real __init__ chain of a concrete subclass)
+        import contracts.C03 as C03
+
+        self = C03.model(h, C03.NP, lambda_=lam)
+        add_intercept = self.attrs["add_intercept"]
+    else:
+        self = h.obj(CO, lambda_=lam, add_intercept=add_intercept)
     model = QRModel(h.interp)
     return self, model, X, y, w, tau, lam, add_intercept
 
@@ -49,7 +56,7 @@ def _eff(call, name, self_vals):
 
 @unit("C20", "fit_model.first_attempt", fn=f"{CO}.fit_model")
 def first_attempt(h):
-    self, model, X, y, w, tau, lam, add_intercept = _setup(h)
+    self, model, X, y, w, tau, lam, add_intercept = _setup(h, real_init=True)
     kind, r = h.call_method(self, "fit_model", model, X, y, tau, w, True)
     if kind == "raise":
         return h.fail("no_raise", f"raised {r}")
@@ -58,7 +65,7 @@ def first_attempt(h):
     h.ensures("request.x_y_weights", isinstance(c["x"], FrameMatrix) and c["x"].frame is X and z3.eq(c["y"].t, y.t) and z3.eq(c["weights"].t, w.t))
     h.ensures("request.tau", V(to_t(c["taus"]) == tau.t))
     h.ensures("request.lambda", V(to_t(c["lambda_"]) == lam.t))
-    h.ensures("request.intercept", V(to_b(c["fit_intercept"]) == add_intercept.t))
+    h.ensures("request.intercept", V(to_b(c["fit_intercept"]) == to_b(add_intercept)))
 
 
 def to_t(x):
@@ -76,7 +83,7 @@ def to_b(x):
 def _retry(kindname):
     @unit("C20", f"fit_model.retry.{kindname}", fn=f"{CO}.fit_model")
     def retry(h):
-        self, model, X, y, w, tau, lam, add_intercept = _setup(h)
+        self, model, X, y, w, tau, lam, add_intercept = _setup(h, real_init=True)
         h.interp.fault_plan = {"fail_call": 0, "kind": kindname}
 
         def rp(ev):
@@ -101,6 +108,23 @@ def _retry(kindname):
 
 _retry("SolverError")
 _retry("UserWarning")
+
+
+@unit("C20", "fit_model.retry.every_failing_fit_of_a_run", fn=f"{CO}.fit_model")
+def retry_twice(h):
+    """position independence: two fits on ONE model object (as in a run: median, then a bound) both fail on their
+    first attempt -- each must be retried"""
+    self, model, X, y, w, tau, lam, add_intercept = _setup(h, real_init=True)
+    model2 = QRModel(h.interp)
+    h.interp.fault_plan = {"fail_calls": (0, 2), "kind": "SolverError"}
+    k1, r1 = h.call_method(self, "fit_model", model, X, y, tau, w, True)
+    if k1 == "raise":
+        return h.fail("first_fit_completes", f"raised {r1}")
+    k2, r2 = h.call_method(self, "fit_model", model2, X, y, tau, w, True)
+    if k2 == "raise":
+        return h.fail("second_fit_completes", f"raised {r2}")
+    h.ensures("first_failing_fit_is_retried", len(model.calls) == 2 and model.calls[1]["normalize_weights"] is False)
+    h.ensures("second_failing_fit_is_retried_too", len(model2.calls) == 2 and model2.calls[1]["normalize_weights"] is False, why=f"{len(model2.calls)} solve attempt(s) for the second failing fit")
 
 
 @unit("C20", "reach", fns=[f"{CO}.fit_model"])
